@@ -1,6 +1,6 @@
 (* C08 — property theorems.  Statements only: each is closed by [exact] of a lemma proved in coq/C08/. *)
 From Coq Require Import ZArith QArith Qround Qabs List Bool.
-From Scenic Require Import C08.Relations C08.RelationsProofs C08.Prune C08.PruneProofs.
+From Scenic Require Import C08.Relations C08.RelationsProofs C08.Prune C08.PruneProofs C08.Visibility C08.VisibilityProofs.
 Import ListNotations.
 Open Scope Q_scope.
 
@@ -88,4 +88,109 @@ Example C08_examples :
   match_bounds true {| c_left := TConst 2; c_rest := [(LtE, TAtom 0); (Lt, TConst 9)] |} = Some [(0%nat, (Some 2, Some 9))] /\
   match_bounds true {| c_left := TAbs (TSub (TAtom 1) (TConst 3)); c_rest := [(Lt, TConst 1)] |} = Some [(1%nat, (Some (-1 + 3), Some (1 + 3)))] /\
   match_bounds true {| c_left := TAtom 0; c_rest := [(NotEq, TConst 5)] |} = Some [].
+Proof. vm_compute. repeat split. Qed.
+
+(* ---------------------------------------------------------------- visibility plumbing (round 2) *)
+(* maxDistanceBetween: in every scene (any metric space) that satisfies the visibility specifiers and the distance
+   requirements, and whose visible distances / camera offsets / radii respect their static bounds, the two centres
+   are at most the returned bound apart -- for all four visibility branches and the requirement scan *)
+Theorem C08_max_distance_sound : forall (P : Type) (dist : P -> P -> Q),
+  (forall a b c, dist a c <= dist a b + dist b c) -> (forall a b, dist a b == dist b a) ->
+  forall (pos cam : nat -> P) (pts : nat -> P -> Prop) (vdist : nat -> Q) (ego : nat) (objs : list vobj) (rels : list (list drel)),
+    (forall k v, vd_up (nth k objs no_obj) = Some v -> vdist k <= v) ->
+    (forall k c, cam_hyp (nth k objs no_obj) = Some c -> dist (pos k) (cam k) <= c) ->
+    (forall k r, rad_up (nth k objs no_obj) = Some r -> forall x, pts k x -> dist (pos k) x <= r) ->
+    (forall k, req_vis (nth k objs no_obj) = true -> sees P dist cam pts vdist ego k) ->
+    (forall k j, observer (nth k objs no_obj) = Some j -> sees P dist cam pts vdist j k) ->
+    (forall i t u, In (t, Some u) (nth i rels []) -> dist (pos i) (pos t) <= u) ->
+    forall fixed i j d, max_distance_between fixed ego objs rels i j = EFin d -> dist (pos i) (pos j) <= d.
+Proof. exact max_distance_sound. Qed.
+Print Assumptions C08_max_distance_sound.
+
+(* the observer's visibleDistance and the OBSERVED object's radius: swapping them is unsound *)
+Theorem C08_vis_bound_swapped_refuted :
+  exists (o t : vobj) (d : Q), vis_bound t o = Some d /\ exists q, vis_bound o t = Some q /\ d < q.
+Proof. exact vis_bound_swapped_refuted. Qed.
+Print Assumptions C08_vis_bound_swapped_refuted.
+
+(* pruneVisibility: the sampled point of an object seen through a view region lies in the view region buffered by
+   radius + maxDistance (so intersecting the base with any superset of that buffer loses nothing) *)
+Theorem C08_visibility_buffer_sound : forall (P : Type) (dist : P -> P -> Q),
+  (forall a b c, dist a c <= dist a b + dist b c) ->
+  forall (pos : nat -> P) (pts : nat -> P -> Prop) (view : P -> Prop) k (base : P) radius maxDistance,
+    dist base (pos k) <= maxDistance ->
+    (forall x, pts k x -> dist (pos k) x <= radius) ->
+    (exists x, pts k x /\ view x) ->
+    buffered P dist view (radius + maxDistance) base.
+Proof. exact visibility_buffer_sound. Qed.
+Print Assumptions C08_visibility_buffer_sound.
+
+(* relative-heading ranges, wrapping arcs included: every un-normalised difference of headings lying between
+   two of the points the code lists is inside the returned range *)
+Theorem C08_rh_range_sound_hull : forall pi bh oL oR th tL tR p tp a b c d,
+  In a (rh_points pi bh oL oR) -> In b (rh_points pi bh oL oR) -> a <= p <= b ->
+  In c (rh_points pi th tL tR) -> In d (rh_points pi th tL tR) -> c <= tp <= d ->
+  fst (rh_range pi bh oL oR th tL tR) <= tp - p <= snd (rh_range pi bh oL oR th tL tR).
+Proof. exact rh_range_sound_hull. Qed.
+Print Assumptions C08_rh_range_sound_hull.
+
+(* F12 repaired (fix-C08-rh-wrap): testing the range shifted by -2pi, 0, 2pi never drops a pair of cells in which
+   the NORMALISED relative heading of some admissible pair of headings satisfies the requirement's bounds *)
+Theorem C08_rh_overlap_fixed_sound : forall pi bh oL oR th tL tR p tp a b c d lowerBound upperBound,
+  0 < pi ->
+  In a (rh_points pi bh oL oR) -> In b (rh_points pi bh oL oR) -> a <= p <= b ->
+  In c (rh_points pi th tL tR) -> In d (rh_points pi th tL tR) -> c <= tp <= d ->
+  - pi <= p <= pi -> - pi <= tp <= pi ->
+  lowerBound <= normalize pi (tp - p) <= upperBound ->
+  rh_overlap_fixed pi (rh_range pi bh oL oR th tL tR) lowerBound upperBound = true.
+Proof. exact rh_overlap_fixed_sound. Qed.
+Print Assumptions C08_rh_overlap_fixed_sound.
+
+Theorem C08_rh_overlap_fixed_repairs_witness :
+  let pi := 22 # 7 in let r := rh_range pi 3 0 0 (-3) 0 0 in
+  rh_overlap r 0 1 = false /\ rh_overlap_fixed pi r 0 1 = true.
+Proof. exact rh_overlap_fixed_repairs_witness. Qed.
+Print Assumptions C08_rh_overlap_fixed_repairs_witness.
+
+(* bufferHelper's retry loop ends: the pitch doubles up to 1, where the bounding-box path cannot fail *)
+Theorem C08_buffer_retry_terminates : forall (R : Type) (attempt : Q -> option R),
+  (forall p, 1 <= p -> attempt p <> None) ->
+  forall k p, 1 <= inject_Z (2 ^ Z.of_nat k) * p -> retry R attempt (S k) p <> None.
+Proof. exact buffer_retry_terminates. Qed.
+Print Assumptions C08_buffer_retry_terminates.
+Theorem C08_buffer_retry_terminates_0_15 : forall (R : Type) (attempt : Q -> option R),
+  (forall p, 1 <= p -> attempt p <> None) -> retry R attempt 4 pruning_pitch <> None.
+Proof. exact buffer_retry_terminates_0_15. Qed.
+Print Assumptions C08_buffer_retry_terminates_0_15.
+
+(* pruneContainment's retry loop as it is: always attempts at PRUNING_PITCH, so a single failure loops forever *)
+Theorem C08_erosion_retry_asis_refuted :
+  exists attempt : Q -> option unit,
+    (forall p, ~ p == pruning_pitch -> attempt p <> None) /\
+    forall fuel, retry_asis unit attempt fuel pruning_pitch = None.
+Proof. exact erosion_retry_asis_refuted. Qed.
+Print Assumptions C08_erosion_retry_asis_refuted.
+(* repaired (attempt at the current pitch, give up after pitch 1): always ends *)
+Theorem C08_erosion_retry_giveup_terminates : forall (R : Type) (attempt : Q -> option R) k p,
+  1 <= inject_Z (2 ^ Z.of_nat k) * p -> retry_giveup R attempt (S k) p <> None.
+Proof. exact erosion_retry_giveup_terminates. Qed.
+Print Assumptions C08_erosion_retry_giveup_terminates.
+
+(* checkConditionedCycle ends on every finite dependency graph (n nodes, out-degree <= D), cyclic or not *)
+Theorem C08_cycle_check_terminates : forall (deps : nat -> list nat) (n D : nat),
+  (forall v, (v < n)%nat -> Forall (fun d => (d < n)%nat) (deps v)) ->
+  (forall v, (length (deps v) <= D)%nat) ->
+  forall a b, (a < n)%nat -> check_cycle deps (D * n + D + 1) a b <> None.
+Proof. exact cycle_check_terminates. Qed.
+Print Assumptions C08_cycle_check_terminates.
+
+Example C08_visibility_examples :
+  (* ego (visibleDistance 60, radius 1) observes object 1 (visibleDistance 50, radius 2): both directions 62 *)
+  let objs := [mk_vobj (Some 60) (Some 0) (Some 1) false None; mk_vobj (Some 50) (Some 0) (Some 2) false (Some 0%nat)] in
+  max_distance_between false 0 objs [[]; []] 0 1 = EFin 62 /\ max_distance_between false 0 objs [[]; []] 1 0 = EFin 62 /\
+  (* an unknown bound makes min(inf, None) raise; repaired: skipped *)
+  max_distance_between false 0 [mk_vobj (Some 50) None (Some 1) false None; mk_vobj (Some 50) (Some 0) (Some 2) true None] [[]; []] 0 1 = EErr /\
+  max_distance_between true 0 [mk_vobj (Some 50) None (Some 1) false None; mk_vobj (Some 50) (Some 0) (Some 2) true None] [[]; [(0%nat, Some 7)]] 1 0 = EFin 7 /\
+  (let deps := fun v => match v with 0 => [1; 2] | 1 => [3] | 2 => [3] | _ => [] end%nat in
+   check_cycle deps 11 0 3 = Some true /\ check_cycle deps 11 3 0 = Some false).
 Proof. vm_compute. repeat split. Qed.
